@@ -32,7 +32,7 @@ def gen_rar_cases(tier, seed, n_direct, n_e2e):
                  n=n0 + steps_cap * sel_x + slack_x, nt=nt0 + (steps_cap if rng.integers(2) else steps_cap + 1) * sel_t + slack_t,
                  cand_t=sel_t + int(rng.integers(0, 4)), cand_x=sel_x + int(rng.integers(0, 5)),
                  mode="direct" if k < n_direct else "e2e", draws=int(rng.integers(0, 4)),
-                 seed=seed * 100000 + k, cost=2.0)
+                 system=bool(k % 5 == 4), seed=seed * 100000 + k, cost=2.0)
         # a store smaller than one set of additions can never be refined: not generated
         c["n"] = max(c["n"], sel_x)
         c["nt"] = max(c["nt"], sel_t)
@@ -59,6 +59,8 @@ def build(case, rng):
     pk = {"ode": "ode", "statio2": "statio", "nonstatio1": "nonstatio", "nonstatio2": "nonstatio"}[kind]
     D = {"ode": 1, "statio": d, "nonstatio": d + 1}[pk]
     eqt = {"ode": "ODE", "statio": "statio_PDE", "nonstatio": "nonstatio_PDE"}[pk]
+    if case.get("system"):
+        return build_system(case, rng, pk, d, D)
     net = nets.Net(fields.TrigField(case["seed"], D, 1), eqt)
     ncomp = 1 if pk == "nonstatio" else 1 + case["seed"] % 2
     spec = eqs.ResidSpec(case["seed"], ncomp, 1, D)
@@ -83,6 +85,39 @@ def build(case, rng):
         loss = jinns.loss.LossPDENonStatio(u=net.pinn(), dynamic_loss=dyn, params=params)
     data = gens.make_generator(gd)
     return dict(loss=loss, params=params, data=data, net=net, spec=spec, pk=pk, d=d, mins=mins, maxs=maxs,
+                tmin=0.0, tmax=1.5)
+
+
+def _rar_generator(case, pk, d):
+    rar = {"start_iter": case["start"], "update_every": case["every"]}
+    gd = dict(key=case["seed"] % 9973, rar=rar)
+    mins, maxs = [-1.0, 0.5][:max(d, 1)], [1.0, 2.5][:max(d, 1)]
+    if pk == "ode":
+        rar.update(sample_size_times=case["cand_t"], selected_sample_size_times=case["sel_t"])
+        gd.update(kind="ode", nt=case["nt"], bt=2, tmin=0.0, tmax=1.5, nt_start=case["nt_start"])
+    elif pk == "statio":
+        rar.update(sample_size_omega=case["cand_x"], selected_sample_size_omega=case["sel_x"])
+        gd.update(kind="statio", n=case["n"], b=2, dim=d, min_pts=mins, max_pts=maxs, nb=None, bb=None, n_start=case["n_start"])
+    else:
+        rar.update(sample_size_times=case["cand_t"], selected_sample_size_times=case["sel_t"],
+                   sample_size_omega=case["cand_x"], selected_sample_size_omega=case["sel_x"])
+        gd.update(kind="nonstatio", n=case["n"], b=2, dim=d, min_pts=mins, max_pts=maxs, nb=None, bb=None,
+                  nt=case["nt"], bt=2, tmin=0.0, tmax=1.5, cartesian=True, n_start=case["n_start"], nt_start=case["nt_start"])
+    return gens.make_generator(gd), mins, maxs
+
+
+def build_system(case, rng, pk, d, D):
+    """two unknowns, two single-component equations (SystemLossODE / SystemLossPDE), no constraint parts"""
+    from .checks.c13 import SystemProblem
+
+    sp = SystemProblem(dict(kind=pk, d=d, E=2, U=2, names=["a", "b"], eqnames=["e1", "e2"], parts=[], weights="scalar",
+                            scalar_equations=True, B=2, seed=case["seed"]), rng)
+    sp.W["dyn"] = {e: 1.0 for e in sp.eqnames}
+    sp.Wspec = dict(sp.Wspec, dyn=1.0)
+    sp.make_data(2)
+    loss = sp.loss()
+    data, mins, maxs = _rar_generator(case, pk, d)
+    return dict(loss=loss, params=sp.params, data=data, net=None, spec=None, sys=sp, pk=pk, d=d, mins=mins, maxs=maxs,
                 tmin=0.0, tmax=1.5)
 
 
@@ -182,4 +217,7 @@ class RarAutomaton:
 
 
 def sq_residual(B, z):
+    if B.get("sys") is not None:
+        sp = B["sys"]
+        return float(sum(np.sum(sp.specs[e].resid(sp.nets, z, EQ0) ** 2) for e in sp.eqnames))
     return float(np.sum(B["spec"].resid(B["net"], z, EQ0) ** 2))
